@@ -5,6 +5,12 @@ drv_sample: script lines
   ws <seed> <m> w=<..> u=<..> r=<r0,r1,...> [more fields]
       only `m` and the `r=` field are used: r_i is the order rank of key i (integer; equal = tie)
       or `nan`.  output:  r <i0> <i1> ...   |   panic <invalid|makecap|index>
+  wseq | <call> ; <call> ; ...     several calls in ONE process, one after the other (state carried across calls):
+      v <seed> <m> w=.. u=.. r=..   a valid call, answered as `ws`
+      pw <seed> <m> <n> <k>         getWeight panics at index k (recovered by the caller): `panic callback`
+      nil <m> <n>                   nil getWeight:  `panic nil`
+      pa <m> <n>                    invalid arguments: `panic invalid` / `panic makecap` / `panic index`
+      output: the answers joined by " ; ".  The model is stateless: an earlier panic cannot influence a later call.
   stat ...      statistical phase of the harness: the model has nothing to say; output `freq ok`
 -/
 namespace Got.Drv.Sample
@@ -25,7 +31,39 @@ def render : Result → String
 def findField (pre : String) (ws : List String) : Option String :=
   (ws.find? (·.startsWith pre)).map (fun s => (s.drop pre.length).toString)
 
+/-- which panic comes first when the callback misbehaves at index `k` (`k = 0` for a nil callback) -/
+def panicCall (m n : Int) (k : Nat) (what : String) : String :=
+  if n < m ∨ n ≤ 0 then "panic invalid"
+  else if m < 0 then "panic makecap"
+  else if m = 0 then (if k = 0 then what else "panic index")
+  else if (k : Int) < n then what
+  else "bad-op"
+
+def call (ws : List String) : String :=
+  match ws with
+  | "v" :: _seed :: m :: rest =>
+    match parseInt? m, (findField "r=" rest).bind parseRanks with
+    | some m, some ranks => render (weightedSampling rankLess rankGt m ranks)
+    | _, _ => "bad-op"
+  | ["pw", _seed, m, n, k] =>
+    match parseInt? m, parseInt? n, parseNat? k with
+    | some m, some n, some k => panicCall m n k "panic callback"
+    | _, _, _ => "bad-op"
+  | ["nil", m, n] =>
+    match parseInt? m, parseInt? n with
+    | some m, some n => panicCall m n 0 "panic nil"
+    | _, _ => "bad-op"
+  | ["pa", m, n] =>
+    match parseInt? m, parseInt? n with
+    | some m, some n =>
+      if n < m ∨ n ≤ 0 then "panic invalid" else if m < 0 then "panic makecap"
+      else if m = 0 then "panic index" else "bad-op"
+    | _, _ => "bad-op"
+  | _ => "bad-op"
+
 def step (_ : Unit) (line : String) : Unit × String :=
+  if line.startsWith "wseq | " then
+    ((), " ; ".intercalate (((line.drop 7).toString.splitOn " ; ").map (fun c => call (words c)))) else
   match words line with
   | "ws" :: _seed :: m :: rest =>
     match parseInt? m, (findField "r=" rest).bind parseRanks with
